@@ -4,7 +4,7 @@ filtration at index i with the same query on the snapshot taken at i."""
 import itertools, random, json, copy as _copy
 from harness import impl
 from harness.impl import tok, parse_name, idx_tok, SimplicialComplex, Filtration
-from harness.oracles import oracle, wf_message
+from harness.oracles import oracle, wf_message, has
 from harness.oracles2 import own_betti
 
 def _shadow(w, f):
@@ -27,7 +27,7 @@ def o_c13_pre(w, args):
     if kw == 'add':
         T = impl.Toks(toks[2:]); fs = T.names()
         st['faces_V'] = [frozenset(map(tok, c.basisOf(x))) if c.containsSimplexAtSomeIndex(x) else None for x in fs]
-        st['faces_visible'] = all(x in c for x in fs)
+        st['faces_visible'] = all(has(c, x) for x in fs)
     w.ostate['c13pre'] = st
     return None
 
